@@ -172,10 +172,12 @@ def run(ctx):
            f'{len(readers)} reads of is_pep484_tower, all under beartype/_conf', bool(readers) and not bad,
            f'{bad[0][0]}:{bad[0][2].lineno}' if bad else '')
     om = repo.mod('beartype._conf._confoverrides')
-    tf = om.defs.get('_hint_overrides_pep484_tower')
-    ctx.require(tf is not None, 'anchor vanished: _hint_overrides_pep484_tower')
-    d = [x for x in ast.walk(tf) if isinstance(x, ast.Dict)]
-    pairs = {norm(k): norm(v) for x in d for k, v in zip(x.keys, x.values)} if d else {}
+    # the expansion table, by role: the dictionary display of the overrides module whose keys are float and complex (inside a
+    # factory function or at module level)
+    cand = [x for x in ast.walk(om.tree) if isinstance(x, ast.Dict) and {norm(k) for k in x.keys if k is not None} == {'float', 'complex'}]
+    ctx.require(len(cand) == 1, f'anchor vanished: the float / complex expansion table of {om.name} ({len(cand)} candidates)')
+    tf = cand[0]
+    pairs = {norm(k): norm(v) for k, v in zip(tf.keys, tf.values)}
     ok = pairs == {'float': 'Pep484TowerFloat', 'complex': 'Pep484TowerComplex'}
     tm = repo.mod('beartype._data.typing.datatyping')
     vals = {nm: norm(tm.assigns[nm][-1].value) for nm in ('Pep484TowerFloat', 'Pep484TowerComplex') if nm in tm.assigns}
@@ -191,18 +193,31 @@ def run(ctx):
            'the expansion is merged into (not substituted for) the user overrides', ok, norm(st[0])[:100] if st else '')
 
     _tower_merge(ctx, om, sf)
-    tm2 = repo.mod('beartype._conf.conftest')
-    sk = tm2.defs.get('sanify_conf_kwargs')
-    ctx.require(sk is not None, 'anchor vanished: sanify_conf_kwargs')
-    calls = [c for c in walk_shallow(sk) if isinstance(c, ast.Call) and dotted(c.func) == 'sanify_conf_kwargs_is_pep484_tower']
-    guards = [norm(parent(parent(c)).test) if isinstance(parent(parent(c)), ast.If) else None for c in calls]
-    ctx.ob('C18.R3', 'tower:applied-when-enabled', tm2.where(sk),
-           'sanify_conf_kwargs folds the tower into hint_overrides exactly when is_pep484_tower is set',
-           len(calls) == 1 and guards == ["conf_kwargs['is_pep484_tower']"], f'calls under guards {guards}')
+    # where the tower is folded in, by role: the call sites of the merger under beartype/_conf (a helper of the validators, or
+    # the constructor itself), each guarded by the option — and the constructor reaches one of them
+    sites = []
+    for mn_, mm_ in sorted(repo.modules.items()):
+        if not mn_.startswith('beartype._conf'):
+            continue
+        for c in [x for x in ast.walk(mm_.tree) if isinstance(x, ast.Call) and (dotted(x.func) or '').split('.')[-1] == 'sanify_conf_kwargs_is_pep484_tower']:
+            g = None
+            p_ = parent(c)
+            while p_ is not None and not isinstance(p_, (ast.FunctionDef, ast.AsyncFunctionDef, ast.Module)):
+                if isinstance(p_, ast.If) and any(c is y for b_ in p_.body for y in ast.walk(b_)):
+                    g = norm(p_.test)
+                    break
+                p_ = parent(p_)
+            sites.append((mm_, c, g, enclosing_function(c)))
+    ctx.ob('C18.R3', 'tower:applied-when-enabled', sites[0][0].where(sites[0][1]) if sites else om.where(sf),
+           'the tower is folded into hint_overrides exactly when is_pep484_tower is set',
+           len(sites) == 1 and sites[0][2] is not None and "'is_pep484_tower'" in sites[0][2] and 'not ' not in sites[0][2],
+           f'calls under guards {[g for _, _, g, _ in sites]}')
     nw = repo.find_def('beartype._conf.confmain', 'BeartypeConf.__new__')
+    host = sites[0][3] if sites else None
+    reaches = host is nw or (host is not None and any(isinstance(c, ast.Call) and (dotted(c.func) or '').split('.')[-1] == host.name for c in walk_shallow(nw)))
     ctx.ob('C18.R3', 'tower:conf-constructor-sanifies', repo.mod('beartype._conf.confmain').where(nw),
-           'BeartypeConf.__new__ calls sanify_conf_kwargs on the options it stores',
-           any(isinstance(c, ast.Call) and dotted(c.func) == 'sanify_conf_kwargs' for c in walk_shallow(nw)), '')
+           'BeartypeConf.__new__ folds the tower into the options it stores (itself or through the helper that does)', bool(reaches),
+           f'the merger is called from {qualname_of(host) if host is not None else None}')
 
     # ---- R4 ----------------------------------------------------------------------
     ctx.rule('C18.R4', 'violation_* / _is_violation_*_warn are read only by errmain (class selection), checkmake '
@@ -318,7 +333,20 @@ def _tower_merge(ctx, om, sf, RULE='C18.R3'):
         __hash__ = object.__hash__
     tower = AFrozen({FLOAT: TF, COMPLEX: TC})
     saved = dict(F.stubs)
-    F.stubs['beartype._conf._confoverrides._hint_overrides_pep484_tower'] = lambda e, a, k: tower
+    # the tower table, whichever way the module holds it: returned by a (memoised) factory function and / or bound to a
+    # module-level name — both are replaced by the abstract table
+    OVQ = 'beartype._conf._confoverrides'
+    from sa.fold import ClassVal as _CV
+    env_ov = F.module_env(OVQ)
+    tower_patched = []
+    for nm_, v_ in list(env_ov.items()):
+        if 'tower' not in nm_.lower() or nm_.startswith('__'):
+            continue
+        if isinstance(v_, FuncVal):
+            if v_.module == OVQ and not (v_.node.args.args or v_.node.args.kwonlyargs):
+                F.stubs[v_.qual] = lambda e, a, k: tower
+        elif not isinstance(v_, _CV):
+            tower_patched.append((nm_, F.patch_global(OVQ, nm_, tower)))
     # every combination of {absent, restating the tower, conflicting} for float × complex, with and without an unrelated entry
     states = {}
     for fk, fv in (('absent', None), ('as-tower', TF), ('conflict', OTHER)):
@@ -354,6 +382,8 @@ def _tower_merge(ctx, om, sf, RULE='C18.R3'):
                    'with is_pep484_tower the resulting overrides are the user\'s plus float → float | int and complex → '
                    'complex | float | int (a conflicting user entry for float / complex is rejected)', ok, detail)
     finally:
+        for nm_, old_ in tower_patched:
+            F.patch_global(OVQ, nm_, old_)
         F.stubs.clear()
         F.stubs.update(saved)
 
